@@ -215,11 +215,24 @@ class OkAggregate:
 def elem_of(term, fn, vl):
     """(orig index, site bb, elem call term) of the array element a term extracts, or None"""
     hits = []
+    ITER_NEXT = "core::iter::traits::iterator::Iterator::next"
     for c in subterms(term):
         if is_call(c) and c[1] in (VEC_REMOVE, VEC_POP, INDEX) and c[3] and c[3][0] == fn.key:
             bb = c[3][1]
             e = vl.site_elem.get(bb)
             hits.append((e[2] if e else None, bb, c))
+        elif isinstance(c, tuple) and c and c[0] == "field" and c[2] == "0" and c[1][0] == "variant" and c[1][2] == "Some" \
+                and is_call(c[1][1], ITER_NEXT) and c[1][1][3] and c[1][1][3][0] == fn.key and c[1][1][3][1] in vl.site_elem:
+            # the k-th `it.next()` of an iterator over the input array
+            bb = c[1][1][3][1]
+            hits.append((vl.site_elem[bb][2], bb, c))
+        elif isinstance(c, tuple) and c and c[0] == "elemk" and isinstance(c[2], int) and c[2] >= 0:
+            # element i of the [T; N] the input vector was converted to
+            conv = [s for s in subterms(c[1]) if is_call(s, "core::convert::TryInto::try_into") and len(s) > 3 and s[3]
+                    and s[3][0] == fn.key and s[3][1] in vl.array_orig]
+            if len(conv) == 1:
+                orig = vl.array_orig[conv[0][3][1]]
+                hits.append((orig[c[2]] if orig is not None and c[2] < len(orig) else None, conv[0][3][1], c))
     if len(hits) != 1:
         # the same site may occur several times in a phi; accept if all agree
         keys = {(h[0], h[1]) for h in hits}
